@@ -22,6 +22,10 @@ func VerifH_C05_handle_request() {
 	opts := config.DefaultServerOptions()
 	allow3 := verif.Bool()
 	opts.SetAllowEIO3(allow3)
+	if verif.Bool() {
+		// WebTransport enabled as well: it is never a transport of a plain HTTP request
+		opts.SetTransports(types.NewSet[string](transports.POLLING, transports.WEBSOCKET, transports.WEBTRANSPORT))
+	}
 	hook := verif.Choose(3)
 	if hook > 0 {
 		opts.SetAllowRequest(func(*types.HttpContext) error {
@@ -54,7 +58,7 @@ func VerifH_C05_handle_request() {
 	srec.listen(sp, "close", "message", "packet")
 
 	method := verif.StringN([2]int{3, 4}[verif.Choose(2)])
-	transport := verif.StringN([3]int{7, 9, 3}[verif.Choose(3)])
+	transport := verif.StringN([4]int{7, 9, 3, 12}[verif.Choose(4)])
 	eio := verif.String(2)
 	sidKind := verif.Choose(4) // absent, unknown, the polling session, present but empty (= no session named)
 	ctx, w := newCtx(method, "/engine.io/")
